@@ -12,9 +12,11 @@
    polynomials and tropical centuries from B1900.0;  ecl_rot = Rz(p + Pi) . Rx(-eta) . Rz(-Pi). *)
 From Coq Require Import Reals ZArith List Bool String.
 From PyLib Require Import PyVal PyBuiltins Ideal Sphere.
-From Spec Require Import AngleSpec Precession PrecessionBack.
+#[local] Set Warnings "-ambiguous-paths".
+From Coquelicot Require Import Coquelicot.
+From Spec Require Import AngleSpec Precession PrecessionBack PrecessionCompare PrecessionRoute.
 From Gen Require Import M_base M_Angle M_Epoch M_Coordinates.
-From Proofs.C06 Require Import C06_angle C06_jde C06_equ C06_aux C06_orb C06_main C06_back.
+From Proofs.C06 Require Import C06_angle C06_jde C06_equ C06_aux C06_orb C06_main C06_back C06_cmp.
 Import ListNotations.
 Open Scope R_scope.
 
@@ -208,6 +210,50 @@ Theorem C06_ecl_there_and_back : forall j0 j1 l0 b0,
     cos (d2r (1 / 1000000)) <= dot (uvec (d2r lon2) (d2r lat2)) (uvec (d2r l0) (d2r b0)).
 Proof. exact ecl_there_and_back. Qed.
 
+(* Newcomb (FK4) against FK5, both epochs between 1 Jan 1800 (JDE 2378496.5) and 1 Jan 2100
+   (JDE 2488071.5), no proper motion, every declination: the two routines return directions within a
+   chord of 2.3e-5 (0.00132 degree), hence within 0.0014 degree and within the property's 0.005 degree.
+   (Sum of the three angle differences, |dzeta| <= 1.6'', |dz| <= 1.7'', |dtheta| <= 1.4'': polynomials
+   with small coefficients once Newcomb's tropical centuries from B1900 are expressed in T, t.) *)
+Theorem C06_newcomb_vs_fk5 : forall j0 j1 a0 d0,
+  2378496.5 <= j0 <= 2488071.5 -> 2378496.5 <= j1 <= 2488071.5 ->
+  exists ra5 dec5 ra4 dec4,
+    f_precession_equatorial Rops (ep j0) (ep j1) (ang a0) (ang d0) (ang 0) (ang 0)
+    = VTuple [ang ra5; ang dec5] /\
+    f_precession_newcomb Rops (ep j0) (ep j1) (ang a0) (ang d0) (ang 0) (ang 0)
+    = VTuple [ang ra4; ang dec4] /\
+    chord (uvec (d2r ra5) (d2r dec5)) (uvec (d2r ra4) (d2r dec4)) <= 23 / 1000000 /\
+    cos (d2r (14 / 10000)) <= dot (uvec (d2r ra5) (d2r dec5)) (uvec (d2r ra4) (d2r dec4)) /\
+    cos (d2r (5 / 1000)) <= dot (uvec (d2r ra5) (d2r dec5)) (uvec (d2r ra4) (d2r dec4)).
+Proof. exact newcomb_vs_fk5. Qed.
+
+(* Equatorial route vs ecliptical route through the mean obliquity of each epoch -- FIRST ORDER only.
+   R(T,t) = Rz(z) Ry(-theta) Rz(zeta) and E(T,t) = Rx(eps(T+t)) Rz(p+Pi) Rx(-eta) Rz(-Pi) Rx(-eps(T)) are
+   both the identity at t = 0 (all five angles vanish); with x1 the rate of x at t = 0 their angular
+   velocities there are w_R = (0, -theta1, 2 zeta1) and
+   w_E = (eps' - eta1 cos Pi0, -p1 sin eps - eta1 sin Pi0 cos eps, p1 cos eps - eta1 sin Pi0 sin eps);
+   the three components agree within 0.025, 0.010, 0.005 arcsec/century for |T| <= 5 centuries on the
+   polynomials of the regenerated model (those of C06_equ/ecl_closed_form and C06_obliquity).
+   The finite-interval 1e-4 degree statement is not proved (see CLAUSES). *)
+Theorem C06_route_first_order :
+  (forall T, zeta_as T 0 = 0 /\ z_as T 0 = 0 /\ theta_as T 0 = 0 /\ eta_as T 0 = 0 /\ p_as T 0 = 0) /\
+  (forall T, is_derive (fun t => zeta_as T t) 0 (zeta1 T) /\ is_derive (fun t => z_as T t) 0 (zeta1 T) /\
+             is_derive (fun t => theta_as T t) 0 (theta1 T) /\ is_derive (fun t => eta_as T t) 0 (eta1 T) /\
+             is_derive (fun t => p_as T t) 0 (p1 T) /\ pi_as T 0 / 3600 + pi0_deg = Pi0_deg T /\
+             is_derive (fun T => obl_as (T / 100)) T (eps_rate T)) /\
+  (forall T, -5 <= T <= 5 ->
+     Rabs (eps_rate T - eta1 T * cos (d2r (Pi0_deg T))) <= 25 / 1000 /\
+     Rabs (theta1 T - (p1 T * sin (d2r (eps_deg T)) + eta1 T * sin (d2r (Pi0_deg T)) * cos (d2r (eps_deg T))))
+       <= 10 / 1000 /\
+     Rabs (2 * zeta1 T - (p1 T * cos (d2r (eps_deg T)) - eta1 T * sin (d2r (Pi0_deg T)) * sin (d2r (eps_deg T))))
+       <= 5 / 1000).
+Proof.
+  split; [exact zero_interval_angles|]. split.
+  - intro T. exact (conj (zeta_rate T) (conj (z_rate T) (conj (theta_rate T) (conj (eta_rate T)
+             (conj (p_rate T) (conj (Pi_at_0 T) (obl_rate T))))))).
+  - exact route_first_order.
+Qed.
+
 Redirect "C06_equ_closed_form.assumptions" Print Assumptions C06_equ_closed_form.
 Redirect "C06_equ_rotation.assumptions" Print Assumptions C06_equ_rotation.
 Redirect "C06_equ_identity.assumptions" Print Assumptions C06_equ_identity.
@@ -227,3 +273,5 @@ Redirect "C06_orbital_closed_form.assumptions" Print Assumptions C06_orbital_clo
 Redirect "C06_orbital_zero_branch.assumptions" Print Assumptions C06_orbital_zero_branch.
 Redirect "C06_equ_there_and_back.assumptions" Print Assumptions C06_equ_there_and_back.
 Redirect "C06_ecl_there_and_back.assumptions" Print Assumptions C06_ecl_there_and_back.
+Redirect "C06_newcomb_vs_fk5.assumptions" Print Assumptions C06_newcomb_vs_fk5.
+Redirect "C06_route_first_order.assumptions" Print Assumptions C06_route_first_order.
